@@ -58,6 +58,9 @@ DAMAGED = {
     "garbage.lbl": b"this is not = = pvl ( at all\n",
     "stray_token.lbl": b"a = 1 x\nEND\n",
     "empty_file.lbl": b"",
+    # texts a strict dialect loads but the permissive Omni row does not (a verdict of one row must not depend on another row)
+    "strict_only_dash.pvl": b"BEGIN_GROUP = g;\n  tag = abc-\nEND_GROUP = g;\nEND;\n",
+    "isis_only_radix_comment.lbl": b"Bands = 12# bands\nEnd\n",
     "only_end.lbl": b"END",
     "binary_tail.lbl": b"a = 1\nGROUP = g\n b = 2\nEND_GROUP\nEND\n" + bytes(range(256)) * 4,
     "nul_tail.lbl": b"a = 1\nEND\n" + b"\x00" * 64,
